@@ -30,6 +30,10 @@ HPROFILES = {
             'sched': 1, 'add': 2, 'update': 1, 'remove': 2, 'bypass': 2,
             'keep_only': 1, 'sanitize': 2, 'seq': 2, 'append': 1,
             'cycles': 2},
+    'C12': {'requires': 5, 'requires_remove': 1, 'query': 5, 'job': 3,
+            'sched': 1, 'add': 2, 'update': 1, 'remove': 2, 'bypass': 2,
+            'keep_only': 1, 'keep_between': 1, 'sanitize': 2, 'seq': 2,
+            'append': 1, 'cycles': 2},
     'C02': {'requires': 4, 'requires_remove': 1, 'query': 4, 'job': 3,
             'sched': 1, 'add': 2, 'update': 1, 'remove': 3, 'bypass': 3,
             'keep_only': 1, 'keep_between': 1, 'sanitize': 3, 'seq': 2,
@@ -495,7 +499,7 @@ class HGen:
         for _ in range(rng.choice((4, 6, 8, 10, 14, 20))):
             table[rng.choices(kinds, weights)[0]]()
         if (self.prop == 'C19' and rng.random() < 0.5) or \
-                self.prop in ('C01', 'C02', 'C03'):
+                self.prop in ('C01', 'C02', 'C03', 'C12'):
             if self.prop != 'C19' and rng.random() < 0.7:
                 # make the tree runnable: drop dangling requirements
                 self.emit({"op": "sanitize", "sched": top, "twice": False})
